@@ -52,6 +52,28 @@ def drive(hist):
         cm.time = saved
 
 
+def apalache_inductive():
+    """Unbounded integers: Init => IndInv, IndInv /\\ Next => IndInv', IndInv /\\ Next => Value' >= Value
+    (spec/ClockInd.tla, same actions as Clock.tla without the history variables)."""
+    import shutil
+    import subprocess
+    d = tlc.workdir('C14_apalache')
+    obligations = [('Init', 'IndInv', 0), ('IndInit', 'IndInv', 1), ('IndInit', 'Monotonic', 1)]
+    res = []
+    for (init, inv, length) in obligations:
+        cmd = ['apalache-mc', 'check', '--init=' + init, '--inv=' + inv, '--length=%d' % length,
+               '--out-dir=' + os.path.join(d, 'out_%s_%s' % (init, inv)), 'ClockInd.tla']
+        try:
+            p = subprocess.run(cmd, cwd=d, stdout=subprocess.PIPE, stderr=subprocess.STDOUT, text=True, timeout=600)
+            ok = 'EXITCODE: OK' in p.stdout
+            tail = p.stdout[-300:]
+        except Exception as e:
+            ok, tail = False, str(e)
+        res.append({'init': init, 'inv': inv, 'length': length, 'ok': ok, 'cmd': ' '.join(cmd), 'tail': '' if ok else tail})
+    shutil.rmtree(os.path.join(d, 'out_Init_IndInv'), ignore_errors=True)
+    return res
+
+
 def intlike(x):
     return isinstance(x, int) or (isinstance(x, float) and x == int(x) and abs(x) < 2 ** 30)
 
@@ -91,6 +113,11 @@ def main(prop, tier, seed, replay_path=None):
         mc = tlc.run(d, timeout=1800)
         if mc['error'] or mc['violated']:
             print('MACHINERY-FAILURE property=C14: the Clock.tla design check failed:\n' + (mc['error'] or mc['out'][-1500:]))
+            return 2
+        apa = apalache_inductive()
+        if not all(r['ok'] for r in apa):
+            print('MACHINERY-FAILURE property=C14: the inductive invariant of ClockInd.tla was not discharged by Apalache:\n'
+                  + json.dumps([r for r in apa if not r['ok']])[:1500])
             return 2
         hists = [(j['hist'] if isinstance(j['hist'], list) else []) for j in mc['json'] if 'hist' in j]
         nedges = len(hists)
@@ -165,6 +192,8 @@ def main(prop, tier, seed, replay_path=None):
                exhaustive=bool(mc['completed']), clock_edges_replayed=nedges,
                clock_random_traces=len(traces) - nedges, clock_consts={k: sorted(v) if isinstance(v, set) else v for k, v in consts.items()},
                clock_mc_cmd=mc['cmd'], clock_trace_cmd=tr['cmd'], sync_stage=sout,
+               apalache_inductive=dict(obligations=len(apa), discharged=sum(1 for r in apa if r['ok']),
+                                       cmds=[r['cmd'] for r in apa]),
                rule='Clock.tla explored exhaustively within clock_consts; every edge history and seeded random operation '
                     'sequences replayed on the real SimulatedClock under a scripted integral time source and evaluated by '
                     'TLC (ClockTrace.tla); SynchronizedClock through the interpreter engine (clause C14.sync)')
